@@ -14,6 +14,7 @@ On the pinned tree the PV sum clause is false (`succeeded_power` is computed fro
 `C15_pv_sum` does not type-check against the extraction of the unpatched source.
 -/
 import Frequenz.Lemmas.ResultsCases
+import Frequenz.Lemmas.ResultsTie
 
 open Results Extracted.Distributor
 
@@ -256,7 +257,11 @@ theorem C15_pv_powers : C15_pv_powers_statement := by
     injection hr with hr; subst hr
     have hempty : (allocate P invs).1.filter (pvFailed oc) = [] := by simpa using hne
     refine ⟨by rw [hempty]; simp, ?_, ?_⟩
-    · simp only [pvOkSucceeded]; rw [hempty] at hpart ⊢; simp at hpart ⊢; grind
+    · simp only [pvOkSucceeded]
+      rw [hempty] at hpart
+      try rw [hempty]
+      simp at hpart ⊢
+      grind
     · simp only [Bool.false_eq_true, false_iff, not_exists, not_and]
       intro c hc' hf
       have : c ∈ (allocate P invs).1.filter (fun c => C15_callFailed (oc c.1)) := List.mem_filter.mpr ⟨hc', hf⟩
@@ -390,3 +395,72 @@ example : pvDistribute (-2000) [⟨1, -100⟩, ⟨2, -1000⟩] (fun _ => .ok) =
 result accounts for −120 W. -/
 example : pvDistributeAmong [-600, 50] (-120) [⟨1, -1200⟩] (fun _ => .ok) =
     some ([(1, -120)], some ⟨false, -120, [1], 0, [], 0⟩) := by decide +kernel
+
+/-! ## The hand-written model is the current source text -/
+
+/-- **Model is source.**  `Extracted.ResultsLoops.*` is machine-translated from `_battery_manager.py` and
+`_pv_inverter_manager.py` on every run: ONE iteration of every loop of the result accounting (outcome classification
+by the `try/except` clauses, accumulations, `continue`s), the initial accumulators, and the statement sequences around
+the loops (emptiness tests, both constructors with every field, what is sent / returned, early exits); the extractor
+also establishes — or raises — that one `set_power` task is created per item, that all tasks are awaited with the
+request timeout and the late ones cancelled, that `_parse_result` / `_set_api_power` receive these tasks, this
+distribution, these allocations and this remaining power, and that the sort key is the inclusion lower bound.
+`ResultsTie.src…` assemble the loops from those pieces only.  For ALL inputs:
+(1) `_parse_result` = `parseResult` (no result if an outcome escapes the handlers);
+(2) the calls are the set-points / allocations themselves;
+(3) `_distribute_power` after the algorithm = `batResult` (sets compared as sets: the model lists the batteries of every
+    addressed inverter, the code keeps a dict keyed by battery);
+(4) PV: the filter loop keeps exactly the candidates with data, in order; the sort direction is the model's; with no
+    working inverter the method returns without a result; without a status tracker it sends the empty `Success` for an
+    empty request and raises otherwise, with one it goes on;
+    inside the allocation loop an inverter WITHOUT data (dead after the filter) gets a zero allocation;
+(5) `_set_api_power` = `pvResult`;
+(6) `distribute_power` on the working inverters (distinct ids) = `pvDistribute`: calls and result. -/
+def C15_model_is_source_statement : Prop :=
+  (∀ (ib : Nat → List Nat) (sps : List SetPoint),
+    ResultsTie.srcParse ib sps =
+      if sps.any (fun sp => decide (batHandling sp.outcome = Handling.propagates)) then none
+      else some (parseResult ib sps)) ∧
+  (∀ (i : Nat) (w : Rat), Extracted.ResultsLoops.batCall i w = (i, w) ∧ Extracted.ResultsLoops.pvCall i w = (i, w)) ∧
+  (∀ (P remaining : Rat) (ib : Nat → List Nat) (sps : List SetPoint),
+    ResultsTie.SameResult (batResult P remaining ib sps) (ResultsTie.srcBatResult P remaining ib sps)) ∧
+  ((∀ cands : List (Nat × Bool), ResultsTie.srcFilter cands = (cands.filter (·.2)).map (·.1)) ∧
+   Extracted.ResultsLoops.pvSortReverse = pvSortDescending ∧
+   (∀ n : Nat, Extracted.ResultsLoops.pvAbort n =
+      if n = 0 then Extracted.ResultsLoops.Exit.returns none else Extracted.ResultsLoops.Exit.falls) ∧
+   (∀ (ids : List Nat) (P : Rat),
+      Extracted.ResultsLoops.pvPrelude true ids P = Extracted.ResultsLoops.Exit.falls ∧
+      Extracted.ResultsLoops.pvPrelude false [] P =
+        Extracted.ResultsLoops.Exit.returns (some ⟨false, 0, [], 0, [], P⟩) ∧
+      (ids ≠ [] → Extracted.ResultsLoops.pvPrelude false ids P = Extracted.ResultsLoops.Exit.raises))) ∧
+  (∀ (num idx : Nat) (allocs : List (Nat × Rat)) (rem : Rat) (i : Nat) (b : Rat),
+    Extracted.ResultsLoops.pvAllocStep num idx allocs rem i false b = (Extracted.ResultsLoops.assocSet allocs i 0, rem)) ∧
+  (∀ (P remaining : Rat) (allocs : List (Nat × Rat)) (oc : Nat → Outcome),
+    pvResult P remaining allocs oc = (ResultsTie.srcPvResult P remaining allocs oc).map ResultsTie.toResult) ∧
+  (∀ (P : Rat) (invs : List PvInv) (oc : Nat → Outcome), (invs.map (·.id)).Nodup →
+    pvDistribute P invs oc =
+      (ResultsTie.srcPvDistribute P invs oc).map (fun cr => (cr.1, cr.2.map ResultsTie.toResult)))
+
+theorem C15_model_is_source : C15_model_is_source_statement := by
+  refine ⟨ResultsTie.srcParse_eq, ?_, ResultsTie.batResult_eq_source, ⟨ResultsTie.srcFilter_eq, by decide, ?_, ?_⟩,
+    ResultsTie.pvAllocStep_nodata, ResultsTie.pvResult_eq_source, ResultsTie.pvDistribute_eq_source⟩
+  · intro i w
+    exact ⟨rfl, rfl⟩
+  · intro n
+    unfold Extracted.ResultsLoops.pvAbort
+    by_cases h : n = 0
+    · subst h; simp
+    · have h' : ¬ 0 = n := fun e => h e.symm
+      simp [h, h']
+  · intro ids P
+    refine ⟨by simp [Extracted.ResultsLoops.pvPrelude], by simp [Extracted.ResultsLoops.pvPrelude], ?_⟩
+    intro h
+    simp [Extracted.ResultsLoops.pvPrelude, h]
+
+/-- Non-vacuity: the source-assembled pipeline computes the PV example above (second call rejected) and the battery
+example (second call timed out), with their non-trivial results. -/
+example : ResultsTie.srcPvDistribute (-500) [⟨2, -1000⟩, ⟨1, -100⟩] (fun i => if i = 1 then .clientError else .ok) =
+    some ([(1, -100), (2, -400)], some ⟨true, -400, [2], -100, [1], 0⟩) := by decide +kernel
+
+example : ResultsTie.srcBatResult 100 10 C15_example_ib C15_example_sps =
+    some ⟨true, 50, [11], 40, [12, 13], 10⟩ := by decide +kernel
